@@ -223,6 +223,35 @@ def run(ctx):
     ctx.cov["oracle"]["url_credentials_on_impl_wire"] = {"cases": len(url_scs), "failures": len(ubad)}
     if ubad:
         ctx.violation({"kind": "oracle", "entry": "from_url credentials", "what": ubad[0][1], "scenario": ubad[0][0], "failures": len(ubad)})
+    # the preference list of the transport builder is the list that is used - the empty one included: with none of its mechanisms on offer
+    # the send fails before any credential (or MAIL) is on the wire
+    pref_scs, pref_meta = [], []
+    for mechs, adv, want in (([], b"AUTH PLAIN LOGIN XOAUTH2", None), (["XOAUTH2"], b"AUTH PLAIN LOGIN", None), (["LOGIN"], b"AUTH PLAIN", None), (["LOGIN", "PLAIN"], b"AUTH PLAIN LOGIN", "LOGIN"), (["XOAUTH2", "PLAIN"], b"AUTH PLAIN LOGIN", "PLAIN"), (["PLAIN"], b"SIZE 1", None)):
+        for fl in ("sync", "tokio"):
+            script = [step("none", b"220 hi\r\n"), step("line", b"250-srv\r\n250 " + adv + b"\r\n")]
+            if want == "LOGIN":
+                script += [step("line", b"334 VXNlcm5hbWU6\r\n"), step("line", b"334 UGFzc3dvcmQ6\r\n")]
+            script += [step("line", b"235 ok\r\n"), step("line", b"250 ok\r\n"), step("line", b"250 ok\r\n"), step("line", b"354 go\r\n"), step("data", b"250 queued\r\n"), step("line", b"221 bye\r\n")]
+            pref_scs.append({"id": 600000 + len(pref_scs), "flavor": fl, "timeout_ms": 3000, "servers": [script],
+                             "ops": [{"op": "transport", "hello": hx(b"pref.test"), "user": hx(b"pref-user"), "pass": hx(b"pref-secret"), "mechs": mechs},
+                                     {"op": "tsend", "from": hx(b"a@x.org"), "to": [hx(b"b@y.org")], "msg": hx(b"x")}, {"op": "tdrop"}]})
+            pref_meta.append((mechs, adv, want, fl))
+    pbad = []
+    for (mechs, adv, want, fl), r, sc in zip(pref_meta, run_scenarios(pref_scs), pref_scs):
+        ctx.count()
+        srv = (r.get("servers") or [None])[0]
+        Rs = events_R(srv) if srv else []
+        auth_lines = [x for x in Rs if x.upper().startswith(b"AUTH")]
+        res = str((r.get("results") or [None, None])[1])
+        if want is None:
+            leaked = [x for x in Rs[1:] if b"MAIL" in x.upper() or base64.b64encode(b"pref-secret") in x or base64.b64encode(b"\0pref-user\0pref-secret") in x]
+            if auth_lines or leaked or not res.startswith("err,client"):
+                pbad.append((sc, "preference list %r, server offers %r: expected a client error before any credential; got %s, AUTH lines %r (%s)" % (mechs, adv, res[:120], auth_lines[:2], fl)))
+        elif not auth_lines or not auth_lines[0].upper().startswith(b"AUTH " + want.encode()) or not res.startswith("ok,"):
+            pbad.append((sc, "preference list %r, server offers %r: expected AUTH %s and a delivery; got %s, AUTH lines %r (%s)" % (mechs, adv, want, res[:120], auth_lines[:2], fl)))
+    ctx.cov["oracle"]["builder_preference_list_on_impl_wire"] = {"cases": len(pref_scs), "failures": len(pbad)}
+    if pbad:
+        ctx.violation({"kind": "oracle", "entry": "SmtpTransportBuilder::authentication", "what": pbad[0][1], "scenario": pbad[0][0], "failures": len(pbad)})
     # pure: Mechanism::response and base64
     lines = []
     for user, pw in CREDS:
